@@ -253,6 +253,15 @@ def bits(x):
     return struct.unpack('<Q', struct.pack('<d', float(x)))[0]
 
 
+NAN_BITS = 0x7ff8000000000000
+
+
+def canon_bits(b):
+    """IEEE bit pattern with every NaN (any sign / payload) sent to one representative: which NaN an invalid
+    operation produces is not fixed by IEEE-754 and Lean's `Float.toBits` canonicalises NaNs anyway."""
+    return NAN_BITS if (b & 0x7ff0000000000000) == 0x7ff0000000000000 and (b & 0x000fffffffffffff) else b
+
+
 def same_float(a, b):
     a, b = float(a), float(b)
     if a != a and b != b:
@@ -299,7 +308,8 @@ class Built:
         """parse_model *executes* each generated statement as its syntax check, so a constant sub-expression that
         raises or warns (1/(2-2), log(-7)) makes it fail although the script is inside the grammar."""
         return self.error in ('ZeroDivisionError', 'OverflowError') or (
-            self.error == 'ParserError' and 'Unexpected warning' in self.error_msg)
+            self.error == 'ParserError' and ('Unexpected warning' in self.error_msg
+                                             or 'Unexpected number of warnings' in self.error_msg))
 
     def endogenous(self):
         """name -> symbol, for symbols that carry an equation."""
@@ -452,42 +462,27 @@ def make_locate(span):
 
 
 
-def has_failing_constant(prog):
-    """Does some constant sub-expression (no term inside) of the program raise or warn when evaluated on its own?"""
-    def const(e):
-        if isinstance(e, gs.Num):
-            return True
-        if isinstance(e, gs.Un):
-            return const(e.e)
-        if isinstance(e, gs.Bin):
-            return const(e.l) and const(e.r)
-        if isinstance(e, gs.Call):
-            return all(const(a) for a in e.args)
-        if isinstance(e, gs.IfElse):
-            return const(e.a) and const(e.c) and const(e.b)
-        return False
+class _Stop(Exception):
+    pass
 
-    def walk(e):
-        if const(e):
-            if isinstance(e, gs.Num):
-                return False
-            try:
-                with warnings.catch_warnings():
-                    warnings.simplefilter('error')
-                    gs.eval_expr(e, lambda term: 0.0)
-                return False
-            except Exception:  # noqa: BLE001
-                return True
-        if isinstance(e, gs.Un):
-            return walk(e.e)
-        if isinstance(e, gs.Bin):
-            return walk(e.l) or walk(e.r)
-        if isinstance(e, gs.Call):
-            return any(walk(a) for a in e.args)
-        if isinstance(e, gs.IfElse):
-            return walk(e.a) or walk(e.c) or walk(e.b)
-        return False
-    return any(walk(st.rhs) for st in equations(prog))
+
+def has_failing_constant(prog):
+    """Would executing some statement on its own (what parse_model's syntax check does) raise or warn BEFORE the
+    first term is read?  That is the case exactly when a constant part of the expression — reached through constant
+    guards only — divides by zero or makes a NumPy function warn."""
+    def read(term):
+        raise _Stop()
+
+    for st in equations(prog):
+        try:
+            with warnings.catch_warnings():
+                warnings.simplefilter('error')
+                gs.eval_expr(st.rhs, read)
+        except (_Stop, KeyError, NameError):
+            continue
+        except Exception:  # noqa: BLE001
+            return True
+    return False
 
 
 # ---------------------------------------------------------------------------------------------------------------
